@@ -968,7 +968,7 @@ func (s *Sim) Do(a Action) StepObs {
 			c.Reply(r)
 		}
 	case "Stop":
-		if s.booted && !s.stopped {
+		if !s.stopped { // also before Boot: Shutdown() racing Start()
 			s.Op.Shutdown()
 			s.stopped = true
 			s.boMu.Lock()
